@@ -8,9 +8,8 @@
     The text layer (str(dict) + .replace + eval) is not modelled: it is covered by the
     correspondence check, which compares these games with the file read back. *)
 From Coq Require Import String List Arith Bool.
-From CR Require Import Model.Num Model.Outcome Model.Graph Model.Game.
+From CR Require Import Model.Num Model.Outcome Model.Graph Model.Game Model.Corr.
 Import ListNotations.
-Local Open Scope string_scope.
 
 (** nested-loop list: [for i in range(L): for j in range(W): append (f i j)] *)
 Definition grid {A} (L W : nat) (f : nat -> nat -> A) : list A :=
@@ -33,7 +32,7 @@ Definition ll_num (rows : list (list T)) : nat -> nat -> T :=
 Notation tr := (trans (T:=T)).
 (* ("Label", idx) of a player state, (prob, idx) of a probabilistic state *)
 Definition pl (a : string) (d : nat) : tr := mkT a (zero K) d.
-Definition pb (p : T) (d : nat) : tr := mkT "" p d.
+Definition pb (p : T) (d : nat) : tr := mkT ""%string p d.
 
 Section Builders.
 Variables (length width : nat).
@@ -43,8 +42,8 @@ Definition player_two_transitions (moves : nat -> nat -> nat) (offset_r offset_y
   : list (list tr) :=
   grid length width (fun i j =>
     if negb (moves i j =? 3)
-    then [pl "Green" (offset_r + i * width + j); pl "Yellow" (offset_y + i * width + j)]
-    else [pl "Green" (offset_r + i * width + j)]).
+    then [pl "Green"%string (offset_r + i * width + j); pl "Yellow"%string (offset_y + i * width + j)]
+    else [pl "Green"%string (offset_r + i * width + j)]).
 
 (* [winning_state=None] by default; [not winning_state] is also true for 0 *)
 Definition not_ws (winning_state : option nat) : bool :=
@@ -52,9 +51,9 @@ Definition not_ws (winning_state : option nat) : bool :=
 Definition player_one_down_transitions (offset : nat) (winning_state : option nat)
   : list (list tr) :=
   grid length width (fun i j =>
-    if not_ws winning_state then [pl "Down" (offset + i * width + j)]
-    else if i <? length - 1 then [pl "Down" (offset + i * width + j + width)]
-    else [pl "Down" (match winning_state with Some w => w | None => 0 end)]).
+    if not_ws winning_state then [pl "Down"%string (offset + i * width + j)]
+    else if i <? length - 1 then [pl "Down"%string (offset + i * width + j + width)]
+    else [pl "Down"%string (match winning_state with Some w => w | None => 0 end)]).
 
 (* the four cases on the arrow code; codes above 3 are outside the domain (see the header) *)
 Definition by_move {A} (m : nat) (c0 c1 c2 c3 : A) (other : A) : A :=
@@ -65,11 +64,11 @@ Definition player_one_left_right_transitions (moves : nat -> nat -> nat) (offset
   grid length width (fun i j =>
     let transition :=
       if negb (offset_l =? offset_r)
-      then (pl "Left" (offset_l + i * width + j), pl "Right" (offset_r + i * width + j))
-      else (pl "Left" (offset_l + i * width + py_pred_mod j width),
-            pl "Right" (offset_r + i * width + (j + 1) mod width)) in
+      then (pl "Left"%string (offset_l + i * width + j), pl "Right"%string (offset_r + i * width + j))
+      else (pl "Left"%string (offset_l + i * width + py_pred_mod j width),
+            pl "Right"%string (offset_r + i * width + (j + 1) mod width)) in
     by_move (moves i j) [fst transition] [fst transition; snd transition] [snd transition]
-            [pl "Etha" 0] []).
+            [pl "Etha"%string 0] []).
 
 (* the pinned tree's case order (defect D3, repaired by 7de53ea): kept for the refutation *)
 Definition player_one_left_right_transitions_orig (moves : nat -> nat -> nat) (offset_l offset_r : nat)
@@ -77,14 +76,14 @@ Definition player_one_left_right_transitions_orig (moves : nat -> nat -> nat) (o
   grid length width (fun i j =>
     let transition :=
       if negb (offset_l =? offset_r)
-      then (pl "Left" (offset_l + i * width + j), pl "Right" (offset_r + i * width + j))
+      then (pl "Left"%string (offset_l + i * width + j), pl "Right"%string (offset_r + i * width + j))
       else if j =? 0
-      then (pl "Left" (offset_l + i * width + width - 1), pl "Right" (offset_r + i * width + j + 1))
+      then (pl "Left"%string (offset_l + i * width + width - 1), pl "Right"%string (offset_r + i * width + j + 1))
       else if j =? width - 1
-      then (pl "Left" (offset_l + i * width + j - 1), pl "Right" (offset_r + i * width))
-      else (pl "Left" (offset_l + i * width + j - 1), pl "Right" (offset_r + i * width + j + 1)) in
+      then (pl "Left"%string (offset_l + i * width + j - 1), pl "Right"%string (offset_r + i * width))
+      else (pl "Left"%string (offset_l + i * width + j - 1), pl "Right"%string (offset_r + i * width + j + 1)) in
     by_move (moves i j) [fst transition] [fst transition; snd transition] [snd transition]
-            [pl "Etha" 0] []).
+            [pl "Etha"%string 0] []).
 
 Definition prob_tile_break_transitions (prob_tile_break : T) (loose_tiles : nat -> nat -> nat)
            (offset loosing_state : nat) : list (list tr) :=
@@ -121,9 +120,9 @@ Definition prob_robot_right_break_transitions (prob_robot_break : T) (offset : n
 Definition player_one_down_left_right_transitions (moves : nat -> nat -> nat)
            (offset_d offset_l offset_r : nat) : list (list tr) :=
   grid length width (fun i j =>
-    let t0 := pl "Down" (offset_d + i * width + j) in
-    let t1 := pl "Left" (offset_l + i * width + j) in
-    let t2 := pl "Right" (offset_r + i * width + j) in
+    let t0 := pl "Down"%string (offset_d + i * width + j) in
+    let t1 := pl "Left"%string (offset_l + i * width + j) in
+    let t2 := pl "Right"%string (offset_r + i * width + j) in
     by_move (moves i j) [t0; t1] [t0; t1; t2] [t0; t2] [t0] []).
 
 Definition prob_light_break_transitions (prob_light_break : T) (offset_ok offset_break : nat)
@@ -221,9 +220,36 @@ End Builders.
 Definition write_robots (length width : nat) (moves : nat -> nat -> nat) (rewards : nat -> nat -> T)
            (loose_tiles : nat -> nat -> nat) (prob_tile_break prob_robot_break prob_light_break : T)
   : list (string * game (T:=T)) :=
-  [("game_a", gen_A length width moves rewards loose_tiles prob_tile_break);
-   ("game_b", gen_B length width moves rewards loose_tiles prob_tile_break prob_robot_break);
-   ("game_c", gen_C length width moves rewards loose_tiles prob_tile_break prob_robot_break
+  [("game_a"%string, gen_A length width moves rewards loose_tiles prob_tile_break);
+   ("game_b"%string, gen_B length width moves rewards loose_tiles prob_tile_break prob_robot_break);
+   ("game_c"%string, gen_C length width moves rewards loose_tiles prob_tile_break prob_robot_break
                     prob_light_break)].
 
 End Board.
+
+(** * Correspondence support (instance F): bit-exact comparison of game descriptions *)
+Definition game_eqb (a b : game (T:=PrimFloat.float)) : bool :=
+  floats_eqb (g_rewards a) (g_rewards b)
+  && list_eqb kind_eqb (g_players a) (g_players b)
+  && tl_eqb (g_trans a) (g_trans b)          (* label, probability (bit-exact), target index *)
+  && list_eqb Nat.eqb (g_finals a) (g_finals b).
+Definition named_games_eqb : list (string * game (T:=PrimFloat.float)) -> _ -> bool :=
+  list_eqb (fun x y => String.eqb (fst x) (fst y) && game_eqb (snd x) (snd y)).
+
+(* one case: the board as lists of lists, the three probabilities, and the dictionary the
+   reader returned for the file written by the implementation (keys in file order) *)
+Record board_case := mkBC {
+  bc_length : nat; bc_width : nat;
+  bc_moves : list (list nat); bc_rewards : list (list PrimFloat.float); bc_loose : list (list nat);
+  bc_ptb : PrimFloat.float; bc_prb : PrimFloat.float; bc_plb : PrimFloat.float;
+  bc_read : list (string * game (T:=PrimFloat.float))
+}.
+Definition board_case_model (c : board_case) :=
+  write_robots fops (bc_length c) (bc_width c) (ll_nat (bc_moves c)) (ll_num fops (bc_rewards c))
+               (ll_nat (bc_loose c)) (bc_ptb c) (bc_prb c) (bc_plb c).
+Definition run_board_cases (cs : list board_case) : list nat :=
+  idx_where (fun c => negb (named_games_eqb (board_case_model c) (bc_read c))) cs.
+
+(* abbreviations used by the generated case files to keep them small *)
+Definition ta (a : string) (d : nat) : trans (T:=PrimFloat.float) := mkT a (zero fops) d.
+Definition tp (p : PrimFloat.float) (d : nat) : trans (T:=PrimFloat.float) := mkT ""%string p d.
